@@ -21,7 +21,7 @@ RULE += ' Also: Operands may have a past (queried, reversed twice, translated th
 CONFIGS = ['scipy']
 BUDGET = {'quick': 30000, 'thorough': 400000}
 REQUIRED = ['pre:queried', 'pre:reversed_twice', 'pre:transformed_before', 'op:translated', 'op:rotated', 'op:scaled', 'op:scaled_xy', 'op:transform', 'kind:A', 'kind:path', 'path:closed',
-            'M:shear', 'M:reflect_diag', 'M:nonuniform', 'M:rotation', 'M:near_identity', 'M:integer_typed_array', 'arc_without_autoscale']
+            'M:shear', 'M:reflect_diag', 'M:nonuniform', 'M:rotation', 'M:near_identity', 'M:integer_typed_array', 'arc_without_autoscale', 'path:near_miss_joint']
 
 EPS = 2.0 ** -52
 TG = [0.0, 0.125, 0.25, 0.375, 0.5, 0.625, 0.75, 0.875, 1.0]
@@ -107,6 +107,16 @@ def strategy(tier, config):
                 b = draw(gen.bezier_spec(deg_strategy=st.sampled_from([2, 3]), classes=['generic']))['spec']
                 b[-1] = list(b[1])
                 specs = [b]
+            # near-miss joints: the next segment starts a hair (an ulp .. 1e-6 sizes) away from where the previous one ended; such a
+            # joint does not "coincide exactly" and nothing may be moved to make it so
+            szs = gen.spec_size(specs)
+            for i in range(1, len(specs)):
+                if draw(st.integers(0, 7)) == 0 and specs[i][0] != 'A':
+                    dd = draw(st.sampled_from(['ulp', 1e-12, 1e-9, 1e-6]))
+                    x = specs[i][1][0]
+                    nx = gen.nextafter_k(x, 1) if dd == 'ulp' else x + dd * szs
+                    if nx != x and len({tuple(q) for q in specs[i][1:]}) > 1:
+                        specs[i][1] = [nx, specs[i][1][1]]
             target = {'what': 'path', 'segs': specs}
         elif draw(st.integers(0, 2)) == 0:
             a = draw(gen.arc_center_form(max_ecc=30))
@@ -285,6 +295,14 @@ def check(case, ctx):
             got = complex(b.point(t))
             ctx.check(abs(got - want) <= tol, 'commute/' + cls,
                       '%s: result.point(%r)=%r but mapped point=%r (|diff|=%.3g, tol %.3g)' % (op, t, got, want, abs(got - want), tol))
+    # -- an arc of the result is a consistent arc: its stored end points are the ends of the curve it traces (C04) ----------
+    for b, sp in zip(rsegs, specs):
+        if sp[0] == 'A':
+            ctx.check(abs(complex(b.point(0.0)) - complex(b.start)) <= arc_tol * 4 and abs(complex(b.point(1.0)) - complex(b.end)) <= arc_tol * 4,
+                      'arc_inconsistent/' + op, '%s: the resulting arc has start %r / end %r but point(0) = %r / point(1) = %r'
+                      % (op, b.start, b.end, b.point(0.0), b.point(1.0)))
+    if is_path and any(a[-1] != b_[1] and abs(gen.C(a[-1]) - gen.C(b_[1])) <= 1e-5 * size for a, b_ in zip(specs, specs[1:])):
+        ctx.count('path:near_miss_joint')
     # -- joints stay joined exactly ---------------------------------------------------------------------
     if is_path:
         n = len(rsegs)
